@@ -21,6 +21,7 @@ import (
 	"encoding/json"
 	"errors"
 	"fmt"
+	"hash/fnv"
 	"io"
 	nethttp "net/http"
 	"os"
@@ -72,11 +73,20 @@ type env struct {
 }
 
 type caseCtx struct {
+	alg                   string // algorithm of the honest original ("" = the family's default)
 	fam                   string
 	signer, foreign, rogue enum.JOSEKey
 	near                  []enum.JOSEKey // resolvable parties whose DID is a near-miss of the signer's
 	signingPayload        string         // detached tokens: the bytes between the dots of the signing input
 	data                  map[string]any // consumer specific
+}
+
+// algo is the algorithm the honest original is signed with.
+func (c *caseCtx) algo() string {
+	if c.alg != "" {
+		return c.alg
+	}
+	return enum.DefaultAlg(c.fam)
 }
 
 type consumer struct {
@@ -183,7 +193,7 @@ func consumers() []consumer {
 	list = append(list, consumer{name: "ParseJWS", families: enum.AllFamilies, deps: true, allowed: cat(es, ps, []string{"EdDSA"}),
 		setup: func(e *env, c *caseCtx) enum.JOSEInput {
 			c.signer.Kid, c.foreign.Kid = "kid-signer", "kid-foreign"
-			tok := signCompact(map[string]any{"kid": c.signer.Kid}, []byte(`{"hello":"verif"}`), c.signer, enum.DefaultAlg(c.fam))
+			tok := signCompact(map[string]any{"kid": c.signer.Kid}, []byte(`{"hello":"verif"}`), c.signer, c.algo())
 			return enum.JOSEInput{Token: tok}
 		},
 		run: func(e *env, c *caseCtx, token string) (bool, string) {
@@ -213,7 +223,7 @@ func consumers() []consumer {
 	list = append(list, consumer{name: "dpop", families: enum.AllFamilies, embeddedKey: true, allowed: cat(es, ps, []string{"EdDSA"}),
 		setup: func(e *env, c *caseCtx) enum.JOSEInput {
 			claims, _ := json.Marshal(map[string]any{"htm": "POST", "htu": "https://server.example/oauth2/token", "jti": "c17-jti-0001", "iat": now.Add(-time.Minute).Unix()})
-			tok := signCompact(map[string]any{"typ": "dpop+jwt", "jwk": enum.PublicJWK(c.signer.Public())}, claims, c.signer, enum.DefaultAlg(c.fam))
+			tok := signCompact(map[string]any{"typ": "dpop+jwt", "jwk": enum.PublicJWK(c.signer.Public())}, claims, c.signer, c.algo())
 			c.data["jkt"] = enum.Thumbprint(c.signer.Public())
 			return enum.JOSEInput{Token: tok}
 		},
@@ -259,8 +269,8 @@ func consumers() []consumer {
 			cl := stdClaims("alice")
 			cl["sub"], cl["aud"], cl["jti"] = "admin", []string{audience}, "6f7ad0c4-1d9c-4b8e-9d0a-0a9c0c0f3a11"
 			claims, _ := json.Marshal(cl)
-			alg := enum.DefaultAlg(c.fam)
-			if c.fam == enum.FamRSA {
+			alg := c.algo()
+			if c.fam == enum.FamRSA && c.alg == "" {
 				alg = "PS512"
 			}
 			return enum.JOSEInput{Token: signCompact(map[string]any{"typ": "JWT", "kid": c.signer.Kid}, claims, c.signer, alg)}
@@ -320,7 +330,7 @@ func consumers() []consumer {
 			c.signer.Kid, c.foreign.Kid = "", "did:nuts:foreign#key-1"
 			h := dagHdr()
 			h["jwk"] = enum.PublicJWK(c.signer.Public())
-			return enum.JOSEInput{Token: signCompact(h, dagPayload, c.signer, enum.DefaultAlg(c.fam))}
+			return enum.JOSEInput{Token: signCompact(h, dagPayload, c.signer, c.algo())}
 		}, run: dagRun, keyFor: dagKey})
 	list = append(list, consumer{name: "dag-kid", families: dagFams, embeddedKey: true, bytesAreID: true, deps: true, allowed: cat(es, ps),
 		setup: func(e *env, c *caseCtx) enum.JOSEInput {
@@ -333,7 +343,7 @@ func consumers() []consumer {
 			}
 			h := dagHdr()
 			h["kid"] = c.signer.Kid
-			return enum.JOSEInput{Token: signCompact(h, dagPayload, c.signer, enum.DefaultAlg(c.fam))}
+			return enum.JOSEInput{Token: signCompact(h, dagPayload, c.signer, c.algo())}
 		}, run: dagRun, keyFor: dagKey})
 
 	// --- vcr verifier: JWT credential
@@ -352,7 +362,7 @@ func consumers() []consumer {
 		setup: func(e *env, c *caseCtx) enum.JOSEInput {
 			didParties(e, c, "vcjwt")
 			c.data["kidRequired"] = false
-			return enum.JOSEInput{Token: jwtVC(c.signer, "did:jwk:subject", enum.DefaultAlg(c.fam), now), FlipStride: 5}
+			return enum.JOSEInput{Token: jwtVC(c.signer, "did:jwk:subject", c.algo(), now), FlipStride: 5}
 		},
 		run: func(e *env, c *caseCtx, token string) (bool, string) {
 			cred, err := vc.ParseVerifiableCredential(token)
@@ -377,7 +387,7 @@ func consumers() []consumer {
 			cl["vp"] = map[string]any{"@context": []string{"https://www.w3.org/2018/credentials/v1"}, "type": []string{"VerifiablePresentation"},
 				"verifiableCredential": []string{inner}}
 			claims, _ := json.Marshal(cl)
-			return enum.JOSEInput{Token: signCompact(map[string]any{"typ": "JWT", "kid": c.signer.Kid}, claims, c.signer, enum.DefaultAlg(c.fam)), FlipStride: 9}
+			return enum.JOSEInput{Token: signCompact(map[string]any{"typ": "JWT", "kid": c.signer.Kid}, claims, c.signer, c.algo()), FlipStride: 9}
 		},
 		run: func(e *env, c *caseCtx, token string) (bool, string) {
 			vp, err := vc.ParseVerifiablePresentation(token)
@@ -432,7 +442,7 @@ func consumers() []consumer {
 			cl := stdClaims(didOf(c.signer))
 			cl["client_id"], cl["aud"], cl["nonce"], cl["response_type"], cl["state"] = clientID, "https://as.example/oauth2/bob", "n-1", "code", "s-1"
 			claims, _ := json.Marshal(cl)
-			return enum.JOSEInput{Token: signCompact(map[string]any{"typ": "JWT", "kid": c.signer.Kid}, claims, c.signer, enum.DefaultAlg(c.fam))}
+			return enum.JOSEInput{Token: signCompact(map[string]any{"typ": "JWT", "kid": c.signer.Kid}, claims, c.signer, c.algo())}
 		},
 		run: func(e *env, c *caseCtx, token string) (bool, string) {
 			_, err := iam.VerifJARParse(audit.TestContext(), c.data["auth"].(auth.AuthenticationServices),
@@ -589,6 +599,41 @@ func TestVerifC17(t *testing.T) {
 	accepted, refused := 0, 0
 	for _, cons := range consumers() {
 		cons := cons
+		// --- the complete product {algorithm x GENUINE key of the matching type, honestly signed}: an honest token whose algorithm is
+		// outside the consumer's documented allow-list must be refused (ld-proof: the algorithm follows from the key, not enumerable)
+		if !cons.algFromKey && (!replay || rc.Variant == "honest-product") {
+			for _, fam := range enum.AllFamilies {
+				for _, alg := range enum.FittingAlgs(fam) {
+					idx++
+					if replay {
+						if rc.Consumer != cons.name || rc.Family != fam || rc.Env != alg {
+							continue
+						}
+					} else if !mine(r, cons.name, fam, "honest", alg) {
+						continue
+					}
+					c := &caseCtx{fam: fam, alg: alg, data: map[string]any{}}
+					c.signer, c.foreign, c.rogue = runKey(t, "signer", fam), runKey(t, "foreign", fam), runKey(t, "rogue", enum.FamP256)
+					var tok string
+					built, _ := safely(func() (bool, string) { tok = cons.setup(e, c).Token; return true, "" })
+					if !built {
+						continue
+					}
+					ok, _ := safely(func() (bool, string) { return cons.run(e, c, tok) })
+					allowed := contains(cons.allowed, alg)
+					r.Eval(cons.name + "|honest-product|" + fam + "|" + alg)
+					r.Outcome(fmt.Sprintf("%s honest %s token: allowed=%v accepted=%v", cons.name, alg, allowed, ok))
+					if ok && !allowed {
+						r.Violation("C17|alg-not-allowed|"+cons.name+"|honest-key/"+alg,
+							fmt.Sprintf("%s accepts an honest, correctly signed %s token (genuine %s key): %s is outside the algorithms documented as allowed for this consumer (%s)", cons.name, alg, fam, alg, strings.Join(cons.allowed, ", ")),
+							replayCase{Consumer: cons.name, Family: fam, Variant: "honest-product", Env: alg, Token: tok})
+					}
+					if !ok && allowed {
+						r.Observation("allowed-algorithm-refused|"+cons.name+"|"+alg, fam)
+					}
+				}
+			}
+		}
 		for _, fam := range cons.families {
 			if replay && (rc.Consumer != cons.name || rc.Family != fam) {
 				continue
@@ -622,7 +667,7 @@ func TestVerifC17(t *testing.T) {
 					if v.Name != rc.Variant || rc.Env != "" {
 						continue
 					}
-				} else if !r.Mine(idx) {
+				} else if !mine(r, cons.name, fam, v.Name) {
 					continue
 				}
 				if r.Expired() {
@@ -676,7 +721,7 @@ func TestVerifC17(t *testing.T) {
 				sort.Strings(names)
 				for _, n := range names {
 					idx++
-					if !r.Mine(idx) {
+					if !mine(r, cons.name, fam, "vm", n) {
 						continue
 					}
 					fd := docs[n]
@@ -706,7 +751,7 @@ func TestVerifC17(t *testing.T) {
 						if v.Name != rc.Variant || rc.Env == "" {
 							continue
 						}
-					} else if !r.Mine(idx) {
+					} else if !mine(r, cons.name, fam, "env", v.Name) {
 						continue
 					}
 					e.fp = &faultPlan{pos: -1}
@@ -757,4 +802,13 @@ func contains(l []string, s string) bool {
 		}
 	}
 	return false
+}
+
+// mine assigns a case to a worker by a hash of its NAME: the case lists differ slightly between workers (key material is
+// random per process, so e.g. the std-alphabet variant exists only when a token happens to contain '-' or '_'), and a
+// position-based split would then evaluate some cases twice and others never.
+func mine(r *ev.Run, parts ...string) bool {
+	h := fnv.New32a()
+	h.Write([]byte(strings.Join(parts, "|")))
+	return r.Mine(int(h.Sum32() & 0x7fffffff))
 }
